@@ -83,6 +83,14 @@ def pick_instant(rng, tz, old=False):
         year = rng.choice([1958, 1961, 1965, 1967, 1968, 1969, 1970, 1971])
     tr = transitions(tz, year)
     k = rng.random()
+    if not old and k < 0.1:
+        # calendar edges: the days around New Year (ISO week-years differ from calendar years there) and the end of
+        # February, in years of every weekday alignment
+        y = rng.choice(range(2019, 2030))
+        edge = rng.choice([(y, 1, 1), (y, 1, 1), (y, 3, 1)])
+        t = int(datetime.datetime(*edge, tzinfo=datetime.timezone.utc).timestamp())
+        t += rng.choice([-3, -2, -1, 0, 1, 2]) * 86400 + rng.choice([-1, 0, 1, 43200, 86399])
+        return t * 1_000_000 + rng.choice([0, 0, 999_999, rng.randrange(1_000_000)])
     base = int(datetime.datetime(year, 1, 15, 12, tzinfo=datetime.timezone.utc).timestamp())
     if k < 0.25 or not tr:
         t = base + rng.randrange(0, 20 * 86400)
